@@ -1026,7 +1026,8 @@ class ABCPropertyGraph(ABCPropertyGraphConstants):
         isl = ABCPropertyGraph.interface_sliver_from_graph_properties_dict(props)
 
         # find interfaces and attach
-        if isl.get_type() == InterfaceType.DedicatedPort and not isl.interface_info:
+        # (a sub-interface's only interface neighbour is its parent, which is not a child of it)
+        if isl.get_type() != InterfaceType.SubInterface and not isl.interface_info:
             ifs = self.get_first_neighbor(node_id=node_id, rel=ABCPropertyGraph.REL_CONNECTS,
                                           node_label=ABCPropertyGraph.CLASS_ConnectionPoint)
             if ifs is not None and len(ifs) > 0:
